@@ -165,16 +165,17 @@ PROPS["C06"] = {
         "GstProofs.C06.closest_first", "GstProofs.C06.selection_sublist", "GstProofs.C06.quota",
         "GstProofs.C06.too_few", "GstProofs.C06.subset", "GstProofs.C06.knn_spec",
         "GstProofs.Neigh.servePass_spec", "GstProofs.Neigh.quotaLoop_spec",
+        "GstProofs.C06.quota_total", "GstProofs.C06.quota_fair", "GstProofs.C06.quota_order", "GstProofs.Neigh.quotas_level",
     ],
     "harnesses": ["vh_c06"],
     "level": "proof",
-    "technique": "Lean 4 transcription model of NeighMoving::_moving/_movingSectorNsmax/_movingSelect with theorems by induction (sorted permutation, sub-sequence selection, round-robin quota bounds, empty below nmini); exact differential correspondence with the library on an independently computed candidate list, with exact tie/near-tie exclusion; k-NN queries of the ball tree compared with the exhaustive specification",
-    "level_text": "Partial proof: the selection logic is a proved-about transcription (closest first, subset, quotas never exceed sector content nor nmaxi, empty when fewer than nmini) and is compared exactly with the library for every generated target, with and without ball search / cross-validation / selections / anisotropy; the ball-tree algorithm itself is not modelled: its k-NN results are compared with the exhaustive sorted specification (correspondence only).",
-    "level_note": "Trusted: Lean kernel + 3 standard axioms; admissibility of a candidate (distance, sector) is computed by the harness independently of the neighbourhood code (sector re-derived exactly in the driver for 1/2/4/8 sectors); candidates closer than the library's tie-breaking perturbation are skipped and counted; fairness (|q_s - q_t| <= 1) of the quotas is not yet a theorem.",
+    "technique": "Lean 4 transcription model of NeighMoving::_moving/_movingSectorNsmax/_movingSelect with theorems by induction (sorted permutation, sub-sequence selection, round-robin quota bounds, exact total, fairness and order of service, empty below nmini); exact differential correspondence with the library on an independently computed candidate list, with exact tie/near-tie exclusion; k-NN queries of the ball tree compared with the exhaustive specification",
+    "level_text": "Partial proof: the selection logic is a proved-about transcription (closest first, subset, quotas never exceed sector content nor nmaxi, add up to nmaxi, differ by at most one between non-exhausted sectors, earlier sectors first, empty when fewer than nmini) and is compared exactly with the library for every generated target, with and without ball search / cross-validation / selections / anisotropy; the ball-tree algorithm itself is not modelled: its k-NN results are compared with the exhaustive sorted specification (correspondence only).",
+    "level_note": "Trusted: Lean kernel + 3 standard axioms; admissibility of a candidate (distance, sector) is computed by the harness independently of the neighbourhood code (sector re-derived exactly in the driver for 1/2/4/8 sectors); candidates closer than the library's tie-breaking perturbation are skipped and counted.",
     "rule": "random point sets (5-300 points, 2-3D, dyadic coordinates), selections, undefined values, cross-validation, radii, anisotropy (+rotation), nmini/nmaxi/nsect (1,2,4,8,3,5,6)/nsmax, ball search with leaf sizes 1-40; 20 targets per set + 10 k-NN queries. distinct = distinct request line; trivial = fewer than 2 candidates",
     "trivial": lambda line: line.split(" ")[7].count(",") < 1 if line.startswith("n mov") else False,
     "trusted_base": TB_COMMON,
-    "uncovered": ["ball-tree construction and query algorithm (not modelled; correspondence with the exhaustive k-NN only)", "fairness of the round-robin quotas as a theorem", "additional pair checkers (faults, codes, benches)"],
+    "uncovered": ["ball-tree construction and query algorithm (not modelled; correspondence with the exhaustive k-NN only)", "additional pair checkers (faults, codes, benches)"],
     "assumptions": ["ties and near-ties in distance are excluded (exact test in the driver)", "points on sector boundaries are excluded for 2/4/8 sectors"],
 }
 
